@@ -18,6 +18,9 @@ from harness.core import Ctx, Failure, Broken, LeanDriver, Prop, Result, diff_st
 from harness import c06_fakes as F
 
 R_NAME = "ctxR"
+# boundary family for the strings a peer puts into its handshake (context name, version)
+NAME_FAMILY = ["", " ", "0", "none", "x" * 300, "pe\u00ebr-\u03a9", "peerT\x00", "$router"]
+
 FAULTS = ("marker", "marker-insert", "oversize", "undecodable", "notmsg", "nohs", "hs2", "hsdir", "badsrc",
           "baddst", "hsnone-hs", "hsnone-msg", "lenlie", "wrongname", "eof-mid", "maxhdr",
           "hs-marker", "hs-oversize", "hs-garbage")
@@ -95,6 +98,7 @@ class ScnGen:
         server = (role == "out")         # R connected out => the peer is the server
         hs_name = peer
         hs_server = server
+        hs_version = rng.choice([None, None, "0.0.1"] + ([rng.choice(NAME_FAMILY)] if rng.random() < 0.3 else []))
         if fault == "hsdir":
             hs_server = not server
         if fault == "wrongname":
@@ -102,7 +106,7 @@ class ScnGen:
         if fault in ("hsnone-hs", "hsnone-msg"):
             hs_name = None
         if fault != "nohs":
-            hp = pickle.dumps(mk_hs(hs_name, hs_server, rng.choice([None, None, "0.0.1"])))
+            hp = pickle.dumps(mk_hs(hs_name, hs_server, hs_version))
             if maxv < self.real_max and rng.random() < 0.3:
                 # a handshake of exactly the maximum size (or one byte off)
                 target = rng.choice([maxv, maxv, maxv - 1, maxv + 1])
@@ -120,6 +124,8 @@ class ScnGen:
             pieces.append(hf)
             meaning.append("hs")
         alias_for_msgs = R_NAME
+        src_name = peer
+        self.last_hs2_name = None
         idx_fault = rng.randint(0, nmsgs) if fault else None
         rids = list(rids)
         for i in range(nmsgs + 1):
@@ -128,6 +134,8 @@ class ScnGen:
                 if p is not None:
                     pieces.append(p)
                     meaning.append("fault:" + mean)
+                if isinstance(self.last_hs2_name, str) and rng.random() < 0.5:
+                    src_name = self.last_hs2_name      # the traffic goes on under the repeated handshake's name
             if i == nmsgs:
                 break
             r = rng.random()
@@ -146,7 +154,7 @@ class ScnGen:
                     rid = "unk%d" % rng.randint(0, 99)
                 if rng.random() < 0.7 and (rid, dobj) in rids:
                     rids.remove((rid, dobj))
-            m = mk_msg(kind, rid, (peer, "po%d" % rng.randint(0, 2)), (alias_for_msgs, dobj), pad, variant)
+            m = mk_msg(kind, rid, (src_name, "po%d" % rng.randint(0, 2)), (alias_for_msgs, dobj), pad, variant)
             payload = pickle.dumps(m)
             if kind == "q" and maxv < self.real_max and rng.random() < 0.3:
                 # an undeliverable request that itself fits the limit while the error reply for it is at / over it
@@ -222,7 +230,8 @@ class ScnGen:
         if fault == "nohs":
             return None, "nohs"
         if fault in ("hs2", "hsnone-hs"):
-            nm = rng.choice([peer, peer, None, "other"]) if fault == "hsnone-hs" else rng.choice([peer, peer, "other"])
+            nm = rng.choice([peer, peer, None, "other"]) if fault == "hsnone-hs" else rng.choice([peer, peer, "other", "", "0"])
+            self.last_hs2_name = nm
             return F.mkframe(pickle.dumps(mk_hs(nm, rng.choice([server, server, not server])))), "hs2"
         if fault in ("hsdir", "wrongname", "eof-mid", "hs-marker", "hs-oversize", "hs-garbage"):
             return None, fault
@@ -336,10 +345,28 @@ class ScnGen:
             nameB = rng.choice(["peerT", "peerT2", "peer", "PEERT", "peerT "])
             if nameB == "peerT" and roleT == "out" and roleB == "out":
                 nameB = "peerT2"
-        piecesT, meanT = self.conn(roleT, "peerT", nT, fault, reqT, maxv, [nameB, "$client_2"])
+        # the name the peer under test gives in its handshake: boundary family
+        nameT = "peerT"
+        if rng.random() < 0.25:
+            nameT = rng.choice(NAME_FAMILY + [R_NAME, nameB])
+            if nameT == nameB and roleT == "out" and roleB == "out":
+                nameT = "peerT"
+        piecesT, meanT = self.conn(roleT, nameT, nT, fault, reqT, maxv, [nameB, "$client_2"])
         piecesB, meanB = self.conn(roleB, nameB, rng.randint(1, 3), None, reqB, maxv, [])
-        conns = [{"role": roleT, "peer": "peerT", "pieces": [p.hex() for p in piecesT], "meaning": meanT},
+        conns = [{"role": roleT, "peer": nameT, "pieces": [p.hex() for p in piecesT], "meaning": meanT},
                  {"role": roleB, "peer": nameB, "pieces": [p.hex() for p in piecesB], "meaning": meanB}]
+        # up to two more connections (valid traffic, 0..2 pending requests each)
+        extra = []
+        for ci in range(2, 2 + rng.choice([0, 0, 1, 2])):
+            nm = "peer%s" % "TBCD"[ci]
+            role = rng.choice(["in", "out"])
+            reqs = [("x%d_%d" % (ci, i), "rq%d" % rng.randint(0, 2)) for i in range(rng.randint(0, 2))]
+            pcs, mean = self.conn(role, nm, rng.randint(0, 2), None, reqs, maxv, [])
+            conns.append({"role": role, "peer": nm, "pieces": [p.hex() for p in pcs], "meaning": mean})
+            L = sum(len(p) for p in pcs)
+            st = [["open", ci, L, False]] if role == "out" else [["open", ci], ["data", ci, L]]
+            st += [["send", ci, "q", rid, sobj, "ro0", 0, True] for rid, sobj in reqs]
+            extra.append(st)
         steps = []
         order = [0, 1] if rng.random() < 0.5 else [1, 0]
         evq = {}
@@ -419,8 +446,11 @@ class ScnGen:
                     obj = rng.choice(["o0", "rq0", "rq1"])
                     if any(h[0] == obj for h in handlers):
                         q.insert(rng.randint(0, len(q)), ["hdel", obj])
-        for ci in order:
-            steps.append(evq[ci][0])
+        opens = [[evq[ci][0]] for ci in order] + [[st[0]] for st in extra]
+        rng.shuffle(opens)
+        for o in opens:
+            steps.append(o[0])
+            ci = o[0][1]
             if conns[ci]["role"] == "out" and rng.random() < 0.15:
                 steps.append(["dupconnect", ci])
         if rng.random() < 0.05:
@@ -436,6 +466,17 @@ class ScnGen:
             src = qa if (qa and (not qb or rng.random() < 0.7)) else qb
             steps.append(src.pop(0))
         steps += tail_b
+        # the other connections' traffic goes in anywhere after the opens (each one's own order kept)
+        first_free = len(opens) + sum(1 for st in steps if st[0] == "dupconnect") + sum(1 for st in steps if st[0] == "badconnect")
+        for st in extra:
+            pos = first_free
+            for x in st[1:]:
+                pos = rng.randint(pos, len(steps))
+                steps.insert(pos, x)
+                pos += 1
+        # router / context stop as the way every connection is lost
+        if rng.random() < 0.25:
+            steps.insert(rng.randint(max(first_free, len(steps) * 2 // 3), len(steps)), ["stop"])
         # a late request over each connection: must fail at once if the peer is gone, stay pending otherwise
         if rng.random() < 0.5 and not nosend0:
             steps.append(["send", 0, "q", "late0", "rq0", "ro0", 0, True])
@@ -597,6 +638,8 @@ def _run_steps(M, scn, ctx, run, split_rng):
             info["unmutated"] = ctx.send(alias, m, payload, ok, ctx.socks.get(ci))
         elif op == "disc":
             ctx.disconnect(aliases.get(st[1], "nowhere"))
+        elif op == "stop":
+            ctx.close_all()
         elif op == "dupconnect":
             # a second connect_to_peer to a peer that is (or was) connected under that name
             ci = st[1]
@@ -728,6 +771,7 @@ def oracle(scn, run: Run):
     for a in ctx.arrivals:
         arr_by_step[a[0]].append(a)
     lost_elsewhere = set()
+    open_order = []        # connections in the order they were registered with the socket manager
 
     def add(sig, detail):
         if not any(p[0] == sig for p in probs):
@@ -748,6 +792,7 @@ def oracle(scn, run: Run):
         elif op == "open":
             c.opened = True
             c.alias = aliases[ci]
+            open_order.append(ci)
             if c.role == "in" and len(st) > 2 and st[2] == "fail":
                 c.dead = "accept-failed"          # the server handshake could not be sent
             if c.role == "out":
@@ -755,6 +800,9 @@ def oracle(scn, run: Run):
                 pos[ci] = st[2]
                 _advance(scn, ctx, c, handlers, exp, only_one=True)
                 ok = c.hs and c.viol is None and c.dead is None and c.name == c.peer
+                if c.peer.startswith("$"):
+                    ok = False            # names of that form are reserved for local aliases: connecting is refused
+                    c.nosock = True       # ... before any socket is made
                 if not ok:
                     c.dead = "connect-failed"
                     if info["exc"] is None:
@@ -795,6 +843,15 @@ def oracle(scn, run: Run):
                     exp.append(("err", sobj, rid))
             elif kind == "q" and rid not in c.outstanding:
                 c.outstanding[rid] = sobj
+        elif op == "stop":
+            # router / context stop: every live connection is closed (its peer sees EOF) and every pending request
+            # of every connection fails with one error reply
+            losskind = "stop"
+            for cj in open_order:
+                cc = conns[cj]
+                if cc.dead is None:
+                    cc.dead = "stop"
+                    _loss(cc, handlers, exp)
         elif op in ("dupconnect", "badconnect"):
             # must be refused (or fail) with an exception and must not disturb anything that exists
             if info["exc"] is None:
@@ -850,7 +907,7 @@ def oracle(scn, run: Run):
                     add(prej + "delivery:connection-dropped:%s" % why,
                         "step %d %s: connection %d (%s) known=%s closed=%s though the peer kept to the protocol" % (si, st[:3], cj, cc.alias, known, closed))
             else:
-                if known or not closed:
+                if known or not (closed or getattr(cc, "nosock", False)):
                     add("containment:%s:not-disconnected" % (cc.viol or cc.dead),
                         "step %d %s: connection %d (%s) known=%s socket_closed=%s after %s" % (si, st[:3], cj, cc.alias, known, closed, cc.viol or cc.dead))
         if c is not None and c.dead is not None:
@@ -1069,6 +1126,63 @@ def length_sweep(quick=False):
     return out
 
 
+def stop_corpus():
+    """router / context stop (`close_all`) with 1..4 connections, incoming and outgoing in every registration order,
+    0..2 requests pending on each"""
+    import itertools
+    out = []
+    hs_handlers = [["o0", "accept"], ["rq0", "accept"], ["rq1", "accept"]]
+    for n in (1, 2, 3, 4):
+        for roles in itertools.product(("in", "out"), repeat=n):
+            for pend in ([0] * n, [1] * n, [2] * n, [(i + 1) % 3 for i in range(n)], [(2 * i) % 3 for i in range(n)]):
+                conns, steps, sends = [], [], []
+                for ci, role in enumerate(roles):
+                    nm = "peer%d" % ci
+                    hs = F.mkframe(pickle.dumps(mk_hs(nm, role == "out")))
+                    msg = F.mkframe(pickle.dumps(mk_msg("q", "m%d" % ci, (nm, "po0"), (R_NAME, "o0"), 0, 1)))
+                    conns.append({"role": role, "peer": nm, "pieces": [hs.hex(), msg.hex()]})
+                    if role == "out":
+                        steps.append(["open", ci, len(hs), False])
+                        steps.append(["data", ci, len(msg)])
+                    else:
+                        steps.append(["open", ci])
+                        steps.append(["data", ci, len(hs) + len(msg)])
+                    for k in range(pend[ci]):
+                        sends.append(["send", ci, "q", "r%d_%d" % (ci, k), "rq%d" % ((ci + k) % 2), "ro0", 0, True])
+                steps += sends + [["stop"], ["send", 0, "q", "late", "rq0", "ro0", 0, True]]
+                out.append({"R": R_NAME, "max": 10000000, "handlers": hs_handlers, "conns": conns, "steps": steps,
+                            "split_seed": 1, "fault": None, "mode": "whole"})
+    return out
+
+
+def handshake_field_corpus():
+    """first handshake x repeated handshake x following traffic, with context names and versions from the boundary
+    family (empty, blank, "0", long, non-ASCII, the local context's own name, another peer's name)"""
+    out = []
+    hs_handlers = [["o0", "accept"]]
+    hb = F.mkframe(pickle.dumps(mk_hs("peerB", False)))
+    mb = F.mkframe(pickle.dumps(mk_msg("q", "pb", ("peerB", "po0"), (R_NAME, "o0"), 0, 1)))
+    for name in NAME_FAMILY[:-1] + [R_NAME, "peerB"]:
+        for ver in (None, "", "x" * 300):
+            for nm2 in (None, name, "other", ""):
+                pcs = [F.mkframe(pickle.dumps(mk_hs(name, False, ver))),
+                       F.mkframe(pickle.dumps(mk_msg("q", "a1", (name, "po0"), (R_NAME, "o0"), 0, 1)))]
+                if nm2 is not None:
+                    pcs.append(F.mkframe(pickle.dumps(mk_hs(nm2, False, ver))))
+                    pcs.append(F.mkframe(pickle.dumps(mk_msg("q", "a2", (nm2, "po0"), (R_NAME, "o0"), 0, 1))))
+                    pcs.append(F.mkframe(pickle.dumps(mk_msg("o", "", (name, "po0"), (R_NAME, "o0"), 0, 1))))
+                conns = [{"role": "in", "peer": name, "pieces": [p.hex() for p in pcs]},
+                         {"role": "in", "peer": "peerB", "pieces": [hb.hex(), mb.hex()]}]
+                for cuts in ([sum(map(len, pcs))], [len(p) for p in pcs]):
+                    steps = [["open", 0], ["open", 1], ["data", 1, len(hb)]] + [["data", 0, n] for n in cuts] + \
+                            [["data", 1, len(mb)]]
+                    out.append({"R": R_NAME, "max": 10000000, "handlers": hs_handlers, "conns": conns, "steps": steps,
+                                "split_seed": 1, "fault": "hs2" if nm2 is not None else None, "mode": "frames"})
+                if ver is not None and nm2 is not None:
+                    break
+    return out
+
+
 def fixed_corpus():
     """deterministic scenarios that run first on every seed: every fault kind in both roles (one segment and, for
     the accepting side, single bytes), frames of exactly limit-1 / limit / limit+1, operations repeated or in an
@@ -1104,6 +1218,8 @@ def fixed_corpus():
             out.append(dict(with_cuts(b, [300, 1200]), fault=None, mode="random"))
     # length fields over the whole 64-bit range (see `length_sweep`), a few of them on every run
     out += length_sweep(quick=True)
+    out += stop_corpus()
+    out += handshake_field_corpus()
     # the same operation twice / unusual order
     b = base_scenario("in", None, 2, None, None, 0, None)
     scn = with_cuts(b, [])
